@@ -3,15 +3,17 @@
   Property theorems only (helper lemmas live in CB/Lemmas/C02*.lean).  Every theorem quantifies over
   all limb counts (list lengths) and all operand values.
 
-  Hypothesis carried by `_partial` theorems:
-    H_recip (`CB.Div.HRecip`): `reciprocalImpl d = reciprocalSpec d` for every `B/2 ≤ d < B`
-      (the 64-bit Newton iteration of `reciprocal`; a 2^63-element domain, exercised by the
-      correspondence run through `Reciprocal::new`'s Debug output, not proved).
-  H_qhat of DESIGN.md is PROVED here (`div3by2_exact`, `qhat_within_one`).
-  The only statement left unproved is H_recip itself:
-    FULL STATEMENT (unproved): ∀ d, HALF ≤ d → d < B → reciprocalImpl d = reciprocalSpec d
+  No hypothesis is carried any more.  Both facts that DESIGN.md §6 planned as named hypotheses are PROVED:
+    H_recip (`CB.Div.HRecip`, now the theorem `reciprocal_exact` below = `CB.Div.hrecip`,
+      CB/Lemmas/C02Recip*.lean): `reciprocalImpl d = reciprocalSpec d = ⌊(B²−1)/d⌋ − B` for every `B/2 ≤ d < B`
+      — the 64-bit Möller–Granlund Newton iteration (table look-up by `decide +kernel` over the 256 values of
+      `d >> 55`, three Newton steps as exact residual identities over ℤ, the final adjustment step, and the
+      wrapping layer showing that no intermediate overflows except where the code wraps on purpose);
+    H_qhat (`div3by2_exact`, `qhat_within_one`).
+  Hence every division routine of the model is exact for ALL limb counts and ALL operands with `d ≠ 0`.
 -/
 import CB.Lemmas.C02LimbDiv
+import CB.Lemmas.C02Recip
 import CB.Lemmas.C02Rows
 import CB.Lemmas.C02Div3by2
 import CB.Lemmas.C02Knuth
@@ -71,13 +73,21 @@ theorem knuth_row_exact {xs ys : List Nat} {xHi quo q : Nat} (hx : WF xs) (hy : 
     WF (knuthRow xs ys xHi quo).1 ∧ (knuthRow xs ys xHi quo).1.length = xs.length :=
   knuthRow_spec hx hy hl hxHi hq hlo hhi hest
 
+/-- **H_recip, proved** (DESIGN §6 carried it as a hypothesis): the 64-bit Newton iteration of `reciprocal`
+    (`src/uint/div_limb.rs:47-74`, Möller–Granlund Algorithm 3 as the crate writes it, with its wrapping
+    operations and the `x == 0` select) returns exactly `⌊(B² − 1)/d⌋ − B` for EVERY normalised divisor. -/
+theorem reciprocal_exact (d : Nat) (hd1 : HALF ≤ d) (hd : d < B) : reciprocalImpl d = reciprocalSpec d :=
+  hrecip d hd1 hd
+
+example : reciprocalImpl HALF = WMAX ∧ reciprocalImpl WMAX = 1 := by decide +kernel
+
 /-- T02.3 single-limb division through the reciprocal: exact for EVERY limb count and every
-    non-zero limb divisor, including normalisation shift 0 and the final un-shift (given H_recip). -/
-theorem divRemLimb_exact_partial (H_recip : HRecip) {d : Nat} (hd0 : 0 < d) (hd : d < B)
+    non-zero limb divisor, including normalisation shift 0 and the final un-shift (H_recip is the proved `reciprocal_exact`). -/
+theorem divRemLimb_exact {d : Nat} (hd0 : 0 < d) (hd : d < B)
     {u : List Nat} (hu : WF u) :
     (divRemLimb u d).1 = toLimbs u.length (val u / d) ∧ (divRemLimb u d).2 = val u % d ∧
     remLimb u d = val u % d :=
-  divRemLimb_spec H_recip hd0 hd hu
+  divRemLimb_spec hrecip hd0 hd hu
 
 /-- T02.5b the capped 3-by-2 quotient of the top limbs is the true digit or one more (Knuth 4.3.1
     Theorem B, for a normalised two-limb divisor head `v2 ≥ B²/2`): `W = u3·K + wl`, `Y = v2·K + yl`,
@@ -101,10 +111,10 @@ theorem shlLimb_exact {a : List Nat} {s : Nat} (hs : s < 64) (ha : WF a) :
   shlLimb_spec hs ha
 
 /-- T02.6 (one-limb case, the static `LIMBS == 1` short circuit of `div_rem`) -/
-theorem divRemCt_one_limb_partial (H_recip : HRecip) {n d : Nat} (hn : n < B) (hd0 : 0 < d) (hd : d < B) :
+theorem divRemCt_one_limb {n d : Nat} (hn : n < B) (hd0 : 0 < d) (hd : d < B) :
     divRemCt [n] [d] = ([n / d], [n % d]) := by
   have hu : WF [n] := WF_cons.mpr ⟨hn, WF_nil⟩
-  have ⟨h1, h2, _⟩ := divRemLimb_spec H_recip hd0 hd hu
+  have ⟨h1, h2, _⟩ := divRemLimb_spec hrecip hd0 hd hu
   have hv : val [n] = n := by simp [val]
   have hq : n / d < B := Nat.lt_of_le_of_lt (Nat.div_le_self _ _) hn
   have e : divRemCt [n] [d] = ((divRemLimb [n] d).1, [(divRemLimb [n] d).2]) := by
@@ -178,20 +188,20 @@ theorem vtLoop_exact {rc : Reciprocal} (ok : RcOK rc) {y : List Nat} {yc : Nat}
 /-- T02.7 `Uint::div_rem_vartime::<RHS_LIMBS>` is exact for EVERY pair of limb counts, every
     dividend and every non-zero divisor (limb-divisor short cut, `yc > LIMBS` short cut, Knuth loop
     with normalisation shift incl. shift 0 and the final un-shift): quotient in the dividend's width,
-    remainder in the divisor's width.  Only H_recip is assumed. -/
-theorem divRemVartime_exact_partial (H_recip : HRecip) {n d : List Nat} (hn : WF n) (hd : WF d)
+    remainder in the divisor's width.  No hypothesis is left (H_recip is the proved `reciprocal_exact`). -/
+theorem divRemVartime_exact {n d : List Nat} (hn : WF n) (hd : WF d)
     (hd0 : val d ≠ 0) :
     divRemVartime n d = (toLimbs n.length (val n / val d), toLimbs d.length (val n % val d)) :=
-  divRemVartime_spec H_recip hn hd hd0
+  divRemVartime_spec hrecip hn hd hd0
 
 /-- T02.7b the vartime thin forms (`rem_vartime`, `rem_mixed`, `wrapping_div_vartime`,
     `wrapping_rem_vartime`, `DivVartime`) -/
-theorem vartime_forms_exact_partial (H_recip : HRecip) {n d : List Nat} (hn : WF n) (hd : WF d)
+theorem vartime_forms_exact {n d : List Nat} (hn : WF n) (hd : WF d)
     (hd0 : val d ≠ 0) :
     remVartime n d = toLimbs d.length (val n % val d) ∧
     wrappingDivVartime n d = toLimbs n.length (val n / val d) := by
   unfold remVartime wrappingDivVartime
-  rw [divRemVartime_spec H_recip hn hd hd0]; exact ⟨rfl, rfl⟩
+  rw [divRemVartime_spec hrecip hn hd hd0]; exact ⟨rfl, rfl⟩
 
 /-- T02.4 (loop invariant, constant time) the active phase of `while xi > 0` from `xi = low + j`
     down to `low` (`low = max(dwords − 1, 1)`): every iteration is one exact digit; the state that
@@ -220,21 +230,21 @@ theorem ctLoop_done_noop {rc : Reciprocal} {y : List Nat} {L dwords : Nat} (hy :
     limb count `≥ 1`, every dividend and every non-zero divisor: the `LIMBS == 1` short cut, the
     top-aligned divisor `rhs.shl(BITS − dbits)`, the normalisation `shl_limb`, the constant-time loop
     with its `done` iterations, the single-limb tail through `div2by1` with the zeroed `x_hi`, the
-    copy-out loop and the two final right shifts.  Only H_recip is assumed. -/
-theorem divRemCt_exact_partial (H_recip : HRecip) {n d : List Nat} (hn : WF n) (hd : WF d)
+    copy-out loop and the two final right shifts.  No hypothesis is left (H_recip is the proved `reciprocal_exact`). -/
+theorem divRemCt_exact {n d : List Nat} (hn : WF n) (hd : WF d)
     (hl : d.length = n.length) (hd0 : val d ≠ 0) :
     divRemCt n d = (toLimbs n.length (val n / val d), toLimbs n.length (val n % val d)) :=
-  divRemCt_spec H_recip hn hd hl hd0
+  divRemCt_spec hrecip hn hd hl hd0
 
 /-- T02.6b all constant-time forms: `rem`, `wrapping_div`, operators, `checked_div`, `checked_rem`,
     and the boxed `div_rem` on equal precisions. -/
-theorem ct_forms_exact_partial (H_recip : HRecip) {n d : List Nat} (hn : WF n) (hd : WF d)
+theorem ct_forms_exact {n d : List Nat} (hn : WF n) (hd : WF d)
     (hl : d.length = n.length) (hd0 : val d ≠ 0) :
     urem n d = toLimbs n.length (val n % val d) ∧ wrappingDiv n d = toLimbs n.length (val n / val d) ∧
     checkedDiv n d = some (toLimbs n.length (val n / val d)) ∧
     checkedRem n d = some (toLimbs n.length (val n % val d)) ∧
     boxedDivRem n d = some (toLimbs n.length (val n / val d), toLimbs n.length (val n % val d)) := by
-  have h := divRemCt_spec H_recip hn hd hl hd0
+  have h := divRemCt_spec hrecip hn hd hl hd0
   refine ⟨?_, ?_, ?_, ?_, ?_⟩
   · unfold urem; rw [h]
   · unfold wrappingDiv; rw [h]
@@ -261,10 +271,10 @@ theorem rem2k_exact {a : List Nat} (ha : WF a) (hne : a ≠ []) (k : Nat) :
 /-- T02.7c `BoxedUint::div_rem_vartime` (hence `wrapping_div_vartime`, `DivVartime`) for ANY two
     precisions: limb short cut, the in-place routine on the low `yc` divisor limbs (incl. its
     `yc > xc` short cut), remainder re-assembled in the divisor's precision. -/
-theorem boxedDivRemVartime_exact_partial (H_recip : HRecip) {n d : List Nat} (hn : WF n) (hd : WF d)
+theorem boxedDivRemVartime_exact {n d : List Nat} (hn : WF n) (hd : WF d)
     (hd0 : val d ≠ 0) :
     boxedDivRemVartime n d = (toLimbs n.length (val n / val d), toLimbs d.length (val n % val d)) :=
-  boxedDivRemVartime_spec H_recip hn hd hd0
+  boxedDivRemVartime_spec hrecip hn hd hd0
 
 example : rem2kVartime [5, 7] 67 = toLimbs 2 ((5 + B * 7) % 2 ^ 67) := by
   have h : WF [5, 7] := by intro x hx; simp at hx; rcases hx with rfl | rfl <;> decide
@@ -276,26 +286,26 @@ example : rem2kVartime [5, 7] 67 = toLimbs 2 ((5 + B * 7) % 2 ^ 67) := by
     `rem_limb_with_reciprocal_wide` (two chained limb loops, carry of the low half OR-ed into the high
     half), and for `yc ≥ 2` the first phase (row at the top, shift one limb up, fetch the next low limb)
     and the second phase (the vartime loop with the digits discarded), normalisation and un-shift. -/
-theorem remWideVartime_exact_partial (H_recip : HRecip) {lower upper d : List Nat} (hlo : WF lower)
+theorem remWideVartime_exact {lower upper d : List Nat} (hlo : WF lower)
     (hup : WF upper) (hd : WF d) (hll : lower.length = d.length) (hul : upper.length = d.length)
     (hd0 : val d ≠ 0) :
     remWideVartime lower upper d =
       toLimbs d.length ((val lower + B ^ d.length * val upper) % val d) :=
-  remWideVartime_spec H_recip hlo hup hd hll hul hd0
+  remWideVartime_spec hrecip hlo hup hd hll hul hd0
 
 /-- T02.3b `BoxedUint::rem_limb` (`boxed/div_limb.rs::rem_limb_with_reciprocal`, which shifts the limbs
     on the fly instead of calling `shl_limb`) computes exactly what the fixed-width routine computes,
     for every limb count; hence `= n mod d`. -/
-theorem boxedRemLimb_exact_partial (H_recip : HRecip) {d : Nat} (hd0 : 0 < d) (hd : d < B) {u : List Nat}
+theorem boxedRemLimb_exact {d : Nat} (hd0 : 0 < d) (hd : d < B) {u : List Nat}
     (hu : WF u) :
     boxedRemLimb u d = val u % d ∧
     ∀ rc : Reciprocal, boxedRemLimbWithReciprocal u rc = remLimbWithReciprocal u rc :=
-  ⟨boxedRemLimb_spec H_recip hd0 hd hu, fun rc => boxedRemLimbWithReciprocal_eq u rc⟩
+  ⟨boxedRemLimb_spec hrecip hd0 hd hu, fun rc => boxedRemLimbWithReciprocal_eq u rc⟩
 
 /-- T02.7e `BoxedUint::rem_vartime` (= `rem_mixed`) for ANY two precisions. -/
-theorem boxedRemVartime_exact_partial (H_recip : HRecip) {n d : List Nat} (hn : WF n) (hd : WF d)
+theorem boxedRemVartime_exact {n d : List Nat} (hn : WF n) (hd : WF d)
     (hd0 : val d ≠ 0) :
     boxedRemVartime n d = toLimbs d.length (val n % val d) :=
-  boxedRemVartime_spec H_recip hn hd hd0
+  boxedRemVartime_spec hrecip hn hd hd0
 
 end CB.P02
